@@ -32,7 +32,7 @@ func init() {
 		Rule:           "runs = one server state (report sets at window edges incl. banned slots, 0-6 authorized servers with location lengths 0-255 and ban flags, with/without a migration order with 0-4 new servers, after 0-2 rotations) x one genuine sync (independent decoder == server snapshot == client parser) x 40 (quick) / all-bit (thorough) tamperings: single-bit flips (all of prefix, timestamp, signature; sampled elsewhere), truncation at field boundaries, extension, rewritten length prefix, re-signing under every other key, timestamp shifts to +-86400/+-86401 s, reply bound to another device, server entries / migration orders with missing or foreign GCA signatures; every tampered reply must be rejected with client state and files unchanged; non-trivial = at least 5 tampering kinds were applied to a reply carrying servers or a migration; distinct = distinct decision signatures",
 		Real:           []string{"server sync handler (reply construction and signing)", "client staticServerSync (request, reply parser, freshness, signature, key binding, migration and per-server GCA signatures)"},
 		Stub:           []string{"TCP (simulated connection; the fabric records and tampers)"},
-		RequiredProbes: []string{"c10.genuine", "c10.genuine.migration", "c10.genuine.servers", "c10.refusal", "c10.tamper.bitflip", "c10.tamper.resign", "c10.tamper.time-accept", "c10.tamper.time-reject", "c10.tamper.foreign-server-sig", "c10.tamper.bad-migration", "c10.tamper.other-device", "c10.tamper.prefix", "c10.tamper.dup-key"},
+		RequiredProbes: []string{"c10.genuine", "c10.genuine.migration", "c10.genuine.servers", "c10.refusal", "c10.tamper.bitflip", "c10.tamper.resign", "c10.tamper.time-accept", "c10.tamper.time-reject", "c10.tamper.foreign-server-sig", "c10.tamper.bad-migration", "c10.tamper.other-device", "c10.tamper.prefix", "c10.tamper.dup-key", "c10.tamper.whole-round"},
 	})
 }
 
@@ -54,6 +54,10 @@ type c10State struct {
 
 func c10Take(cl *ClientNode) c10State {
 	st := c10State{state: cl.C.VerifState(), files: map[string][]byte{}}
+	// Which server is the primary one is decided by the selection step of a
+	// round, not by the reply: not part of "the state a rejected reply leaves
+	// unchanged".
+	st.state.PrimaryServer = glow.PublicKey{}
 	for _, f := range []string{client.GCAPubKeyFile, client.GCAServerMapFile, client.ShortIDFile, client.HistoryFile} {
 		b, _ := os.ReadFile(filepath.Join(cl.Dir, f))
 		st.files[f] = b
@@ -108,10 +112,16 @@ func runC10(m *Sim) {
 	h.AfterRotations()
 
 	// ---- the client ----------------------------------------------------------------
-	cl := w.AddClient("cli0", dev, gca.Pub, []*ServerNode{n}, off)
+	// The client also knows a second server that is never up: a rejected
+	// reply leaves it something else to try (and nothing else to change).
+	spare := w.AddServer("spare0", "temp", true)
+	cl := w.AddClient("cli0", dev, gca.Pub, []*ServerNode{n, spare}, off)
 	if err := cl.Start(); err != nil {
 		m.Fail("C10.start", "client", "client does not start: %v", err)
 	}
+	// Rounds are driven by the harness only.
+	w.S.Hold(cl.Name + ":send.wake")
+	w.S.Hold(cl.Name + ":send.tick")
 	gs := client.GCAServer{Location: n.Loc, HttpPort: n.HTTP, TcpPort: n.TCP, UdpPort: n.UDP}
 
 	// ---- genuine exchange ---------------------------------------------------------
@@ -221,6 +231,26 @@ func runC10(m *Sim) {
 		if after := c10Take(cl); !reflect.DeepEqual(before, after) {
 			m.Fail("C10.state", site, "a rejected reply (%s) changed the client's state or files", site)
 		}
+		// (Not for the replies whose only flaw is a timestamp just outside the
+		// 24 hours: a round takes simulated seconds, the flaw may heal.)
+		if kind != "time-reject" && m.C.Chance("whole-round", 1, 4) {
+			// The same reply inside a whole sync round (every dial is answered
+			// with it): the round fails, and what the client knows - GCA, id,
+			// server map, the four files - is what it knew before. Which server
+			// is the primary one is a matter of the selection, not of the reply.
+			var ok bool
+			t := w.Do("sync-round", func() { ok, _ = cl.C.VerifSyncRound(Slot()) })
+			if t.Panic != nil {
+				m.Fail("C10.panic", "sync-round", "sync round panicked: %v\n%s", t.Panic, firstRepoFrames(t.Stack))
+			}
+			if ok {
+				m.Fail("C10.accept", site, "a sync round fed with a tampered reply (%s) succeeded", site)
+			}
+			if after := c10Take(cl); !reflect.DeepEqual(before, after) {
+				m.Fail("C10.state", site+"/round", "a sync round that rejected its reply (%s) changed the client's state or files", site)
+			}
+			m.Probe("c10.tamper.whole-round")
+		}
 	}
 	expectAccept := func(kind, site string, b []byte) {
 		m.Probe("c10.tamper." + kind)
@@ -243,6 +273,9 @@ func runC10(m *Sim) {
 		m.Probe("c10.tamper.all-bits")
 	}
 	for i := 0; i < nt; i++ {
+		// Whole rounds let simulated time pass: the reference instant of the
+		// timestamp tamperings is the present one.
+		tnow = uint64(time.Now().Unix())
 		switch m.C.Weighted("tamper", 6, 2, 2, 3, 3, 2, 3, 3, 2, 2) {
 		case 0: // single bit flip: prefix, timestamp and signature always in reach
 			var bit int
